@@ -226,11 +226,11 @@ class Instrs(CallsMixin):
         if op in ('<', '<=', '>', '>='):
             return scalar(rt, {'<': a < c, '<=': a <= c, '>': a > c, '>=': a >= c}[op])
         if op == '+':
-            r = ops.wrap(types, a + c, rt)
+            r = self.wrap_checked(a + c, rt)
         elif op == '-':
-            r = ops.wrap(types, a - c, rt)
+            r = self.wrap_checked(a - c, rt)
         elif op == '*':
-            r = ops.wrap(types, a * c, rt)
+            r = self.wrap_checked(a * c, rt)
         elif op == '/':
             self.panic_check(st, fr, ins, c != 0, 'divzero')
             r = ops.wrap(types, ops.tdiv(a, c), rt)
@@ -679,6 +679,18 @@ class Instrs(CallsMixin):
             for p, t in pv.lv.items():
                 lv[('#%d' % j,) + p] = t
         self.setreg(st, ins, Val(tt, lv))
+
+    def wrap_checked(self, raw, tk):
+        """machine result of an arithmetic operation: the mathematical value when the
+        quantifier-free facts of the current path already exclude overflow, otherwise the
+        wrap-around term"""
+        types = self.types
+        rng = types.int_range(tk)
+        if rng is None or ops.const_val(raw) is not None:
+            return ops.wrap(types, raw, tk)
+        if self.cx.in_range_now(raw, rng):
+            return raw
+        return ops.wrap(types, raw, tk)
 
     def valid_type(self, t):
         return t not in ('invalid type', '')
@@ -1146,6 +1158,27 @@ class Instrs(CallsMixin):
                 continue
             if not self.defined_outside(fr, init, body):
                 continue
+            # rotated loops (range over an integer): the guard sits on the back edge, testing the
+            # incremented counter; the counter itself stays strictly below the bound
+            if step > 0:
+                for e, p in zip(edges, preds):
+                    if p not in body or e['k'] != 'reg':
+                        continue
+                    pins = [x for x in cfg.blocks[p]['instrs'] if x['op'] != 'DebugRef']
+                    term = pins[-1] if pins else None
+                    if not term or term['op'] != 'If' or term['cond']['k'] != 'reg' or cfg.succs[p][0] != h:
+                        continue
+                    c = self.def_instr(fr, term['cond']['name'])
+                    if c and c['op'] == 'BinOp' and c['bop'] == '<' and c['x'].get('name') == e['name'] \
+                            and self.defined_outside(fr, c['y'], body):
+                        try:
+                            bv = self.operand(st, fr, c['y']).term
+                        except Exception:
+                            continue
+
+                        def below(s, name=name, bv=bv):
+                            return s.regs[name].term < bv
+                        out.append(('%s.below' % name, below, None))
             # find the comparison guarding the loop: in the header (for) or the block using phi+1 (range)
             bound = self.find_bound(fr, h, name, step, body)
             initv = self.operand(st, fr, init).term
